@@ -14,7 +14,7 @@ META = {
                   'xrspatial.pathfinding._min_cost_pixel_id', 'xrspatial.pathfinding._reconstruct_path', 'xrspatial.pathfinding._find_nearest_pixel',
                   'xrspatial.pathfinding._is_not_crossable', 'xrspatial.utils.get_dataarray_resolution'],
     'bounds': {'quick': 'pixel id: axes of 2..5 cells, symbolic origin, step (either sign) and point; A*: every crossability layout (2^9) of a 3x3 surface for a '
-                        'seeded subset of the 81 start/goal pairs x connectivity {4,8}, one symbolic barrier value, snap on/off on 2x3',
+                        'seeded subset of the 81 start/goal pairs x connectivity {4,8}, every layout (2^12) of 3x4 for the four opposite-corner pairs and 4 seeded pairs at connectivity 8, one symbolic barrier value, snap on/off on 2x3',
                'thorough': 'all 81 pairs of 3x3 for both connectivities, all pairs of 2x4, seeded pairs of 3x4 (4096 layouts each)'},
     'stubs': ['numba.jit = identity', 'warnings.warn = no-op'],
     'outside': ['grids larger than the bound', 'float64 rounding of (p - c0)/cellsize (the quotient is an exact real)',
@@ -55,13 +55,19 @@ def jobs(tier, seed):
         for snap in ([True, True], [True, False], [False, True]):
             out.append({'name': 'astar-2x3-snap%d%d-%d%d-%d%d' % (snap[0], snap[1], s[0], s[1], g[0], g[1]), 'kind': 'astar', 'shape': [2, 3], 'start': list(s),
                         'goal': list(g), 'conn': 8 if snap[0] else 4, 'snap': snap, 'barrier': False})
+    if tier == 'quick':
+        # 3x4, connectivity 8: the smallest grid on which a cell on the optimal route can first be reached through a costlier diagonal predecessor
+        corner = [((2, 0), (0, 3)), ((0, 3), (2, 0)), ((0, 0), (2, 3)), ((2, 3), (0, 0))]
+        for (s, g) in corner + pick([p for p in pairs(3, 4) if p not in corner], 4, seed + 4):
+            out.append({'name': 'astar-3x4-c8-%d%d-%d%d' % (s[0], s[1], g[0], g[1]), 'kind': 'astar', 'shape': [3, 4], 'start': list(s), 'goal': list(g),
+                        'conn': 8, 'snap': [False, False], 'barrier': False})
     if tier != 'quick':
         p24 = pairs(2, 4)
         for (s, g) in p24:
             out.append({'name': 'astar-2x4-c8-%d%d-%d%d' % (s[0], s[1], g[0], g[1]), 'kind': 'astar', 'shape': [2, 4], 'start': list(s), 'goal': list(g),
                         'conn': 8, 'snap': [False, False], 'barrier': False})
         p34 = pairs(3, 4)
-        for (s, g) in pick(p34, 12, seed + 4, always=[11]):
+        for (s, g) in pick(p34, 40, seed + 4, always=[11, 8 * 12 + 3, 3 * 12 + 8, 0 * 12 + 11, 11 * 12 + 0]):
             out.append({'name': 'astar-3x4-c8-%d%d-%d%d' % (s[0], s[1], g[0], g[1]), 'kind': 'astar', 'shape': [3, 4], 'start': list(s), 'goal': list(g),
                         'conn': 8, 'snap': [False, False], 'barrier': False})
     return out
